@@ -28,6 +28,7 @@ DECIDED = [
     "DOM-7 the repository and include setters call deferred_load before load",
     "PARSE-2 the loaders' XML parser does not repair malformed input (a truncated resource yields None, never a cached partial document)",
     "SIB-4 terminology and templates agree on the clauses above",
+    'SYM-1 a class level switch of the loader classes is assigned on one object only (instance or class)',
 ]
 NOT_DECIDED = ["equivalence of all interleavings / linearizability", "data races on the unlocked loaded/loading dictionaries",
                "blocking forever on cyclic includes", "cache staleness"]
